@@ -40,7 +40,7 @@ BUDGET_S = {"quick": 400, "thorough": 3000}
 
 
 def streams(ctx):
-    return [("triples", ctx.scale(200, 2500))]
+    return [("triples", ctx.scale(200, 2500)), ("two_projects", ctx.scale(24, 300))]
 
 
 T_WIDE = T + ("optional", "list", "union")
@@ -191,7 +191,75 @@ def run_sync(d, names, truth, hashseed="0"):
     return pr.returncode, pr.stdout.decode(), pr.stderr.decode()[-600:]
 
 
+DRIVER = """import os, sys, shutil
+import cdd.__main__
+argv = ["sync", "--class", "cls.py", "--class-name", "ConfigClass", "--function", "fn.py", "--function-name", "funky",
+        "--argparse-function", "argp.py", "--argparse-function-name", "set_cli_args", "--truth", "class"]
+os.chdir("project_a"); cdd.__main__.main(list(argv)); os.chdir("..")
+shutil.copytree("project_a", "project_a_after_call_1")
+os.chdir("project_b"); cdd.__main__.main(list(argv)); os.chdir("..")
+"""
+
+
+def run_two_projects(ctx, P, stream, idx):
+    """one process, two projects: `sync` is given the same *relative* file names twice, from two working directories (a
+    build script that walks over packages). Every call makes the files named in *that* call equivalent to *its* truth;
+    the first project is byte for byte what the first call left."""
+    r = ctx.rng(stream, idx)
+    d = tempfile.mkdtemp(prefix="vcdd-c12-")
+    try:
+        truths = {}
+        for proj in ("project_a", "project_b"):
+            os.mkdir(os.path.join(d, proj))
+            ir = rand_ir(r, "ConfigClass")
+            truths[proj] = ir
+            with open(os.path.join(d, proj, "cls.py"), "w") as f:
+                f.write(render("class", ir, None)[0])
+            if r.random() < 0.5:  # (an empty / missing function or argparse file is created by the command)
+                with open(os.path.join(d, proj, "fn.py"), "w") as f:
+                    f.write("")
+        with open(os.path.join(d, "driver.py"), "w") as f:
+            f.write(DRIVER)
+        env = dict(os.environ, PYTHONPATH=REPO, PYTHONDONTWRITEBYTECODE="1")
+        pr = subprocess.run([sys.executable, "driver.py"], cwd=d, env=env, stdout=subprocess.PIPE, stderr=subprocess.PIPE,
+                            timeout=300)
+        P.monitor("sync.run")
+        P.monitor("two-projects.run")
+        P.case({"a": truths["project_a"], "b": truths["project_b"]}, klass="two_projects", sample={"exit": pr.returncode})
+        w = {"stream": stream, "idx": idx, "stderr": pr.stderr.decode()[-500:]}
+        if pr.returncode != 0:
+            P.deviation("sync.two-projects.command-fails|" + (pr.stderr.decode().strip().splitlines() or ["?"])[-1].split(":")[0][:30],
+                        "the driver (two sync calls in one process) exited %d" % pr.returncode, w)
+            return
+        snap_a, snap_1 = fsnap.snapshot(os.path.join(d, "project_a")), fsnap.snapshot(os.path.join(d, "project_a_after_call_1"))
+        P.monitor("fs.snapshot.compared")
+        if snap_a != snap_1:
+            P.deviation("sync.two-projects.first-project-touched-by-second-call|",
+                        "the second call (other working directory, same relative names) changed files of the first project: %r"
+                        % fsnap.changed_paths(fsnap.diff(snap_1, snap_a))[:5], w)
+        for proj in ("project_a", "project_b"):
+            names = list(truths[proj]["params"])
+            for fn, kind, name in (("cls.py", "class", "ConfigClass"), ("fn.py", "function", "funky"),
+                                   ("argp.py", "argparse_function", "set_cli_args")):
+                p = os.path.join(d, proj, fn)
+                P.monitor("target.names-vs-truth.compared")
+                try:
+                    with open(p) as f:
+                        got = list(parse_target(kind, f.read(), name)["params"])
+                except Exception as e:
+                    P.deviation("sync.two-projects.target-missing-or-unparsable|%s" % kind,
+                                "%s/%s: %r" % (proj, fn, e), w)
+                    continue
+                if got != names:
+                    P.deviation("sync.two-projects.target-differs-from-its-truth|%s" % kind,
+                                "%s/%s has parameters %r, the truth of that project has %r" % (proj, fn, got, names), w)
+    finally:
+        shutil.rmtree(d, ignore_errors=True)
+
+
 def run_case(ctx, P, stream, idx):
+    if stream == "two_projects":
+        return run_two_projects(ctx, P, stream, idx)
     r = ctx.rng(stream, idx)
     method = r.random() < 0.5
     if method:
